@@ -83,6 +83,7 @@ class Executor(object):
         self.events = []
         self.assume_feasible = False
         self.debug_merge = None
+        self.effect_seen = set()
         self.varsets = {}
         self.pin_consts = False
         self.fp_mode = False
@@ -161,7 +162,12 @@ class Executor(object):
             self.oblige('nil', st, True, 'nil pointer dereference', pos)
             raise PathDead()
         if self.watch is not None and not (isinstance(p.obj, str) and self.alloc_epoch.get(p.obj, 0) >= self.watch):
-            self.effects.append((st.pc, p.obj, pos))
+            key = (p.obj, pos)
+            if key not in self.effect_seen:
+                self.effect_seen.add(key)
+                self.effects.append((st.pc, p.obj, pos))
+                what = 'package-level variable ' + p.obj[2:] if str(p.obj).startswith('g:') else 'memory that existed before the call (caller data or shared state)'
+                self.oblige('effect', st, guard if not isinstance(guard, bool) else True, 'store to ' + what, pos)
         tree = st.heap[p.obj]
         st.heap[p.obj] = self._store(tree, p.path, v, guard)
 
